@@ -188,6 +188,12 @@ def sweep_stage(run, tmp, hx, known, kinds):
             run.extra["sweep_" + kind] = dict(swept_values=summary.get("swept_values"), exhaustive=(frac == "1"))
 
 
+def stream_mc(run, tmp):
+    hx = V.build_harness(tmp)
+    hstream_mc(run, tmp, hx, "small", [
+        ("HStream", "ok", "reader and writer of one stream as concurrent small-step machines over the small universe: the decoder is never ahead of the encoder's tables, every back-reference resolves to the node the encoder meant, the stream is read to its end (liveness)")])
+
+
 def plan_codec(fam, mc=None, note="", module="TraceCodec", level="model_checking", selftest=True, sweeps=()):
     def f(run, tmp):
         known = V.load_known()
@@ -291,6 +297,34 @@ def hcodec_mc(run, tmp, hx, fam="small"):
         run.add_mc(cfg + "/" + fam, r, note)
 
 
+def hstream_mc(run, tmp, hx, fam, configs):
+    """HStream: small-step encoder (HCodec) and small-step decoder of one stream; configs = [(cfg, expect, note)]"""
+    vdir = V.os.path.join(tmp, "vals_hs_" + fam)
+    V.run_hx(hx, ["altvalues", "-family", fam, "-seed", str(run.seed), "-tier", run.tier, "-out", vdir])
+    for cfg, expect, note in configs:
+        d = V.spec_dir(tmp, "mc_" + cfg + "_" + fam)
+        vp = V.os.path.join(d, "values.ndjson")
+        if V.os.path.lexists(vp):
+            V.os.remove(vp)
+        V.os.symlink(V.os.path.join(vdir, "values.ndjson"), vp)
+        r = V.run_tlc(d, "HStream", cfg, workers=V.NCPU, timeout=3000, heap="8g")
+        ok = ("No error has been found" in r["out"]) if expect == "ok" else any(("Invariant %s is violated" % x) in r["out"] for x in expect.split("|"))
+        if not ok:
+            raise V.Infra("model checking HStream/%s did not give the expected result (%s):\n%s" % (cfg, expect, r["out"][-3000:]))
+        run.add_mc(cfg + "/" + fam, r, note)
+
+
+def plan_c04(run, tmp):
+    known = V.load_known()
+    hx = V.build_harness(tmp)
+    hstream_mc(run, tmp, hx, "graphs", [
+        ("HStream_graphs", "ok", "RefAgreement, NoReject, DecoderNeverAhead, AllRead, termination for every edge assignment over <=2 (thorough <=3) nodes x every filler, lists / maps of pointers, shared containers; decoder steps interleaved with encoder steps"),
+        ("HStream_gneg1", "RefAgreement|NoReject", "negative: a decoder that registers a container when it closes violates RefAgreement / cannot resolve a back-reference into an open container"),
+        ("HStream_gneg2", "AllRead|NoReject|RefAgreement", "negative: an encoder ordinal consumed by empty containers / timestamps (the pinned tree's order) leaves the tables unequal")])
+    codec_stage(run, tmp, hx, known, "c04", "c04")
+    return V.finish(run, "model_checking", "HStream (small-step encoder and decoder with ghost node identities) model-checked over the exhaustive small graphs; the same graph family and random graphs encoded and decoded by the real code; TLC checks ref ordinals on the wire (Denotes binds node->ordinal) and identity in the decoded graph")
+
+
 def plan_c03(run, tmp):
     known = V.load_known()
     hx = V.build_harness(tmp)
@@ -310,6 +344,9 @@ def plan_c05(run, tmp):
     hx = V.build_harness(tmp)
     th = run.tier == "thorough"
     allk = "{" + ", ".join(str(k) for k in range(0, 41)) + "}"
+    hstream_mc(run, tmp, hx, "c05s", [
+        ("HStream_vary", "ok", "with varied class definitions (permuted, dropped, unknown fields carrying containers): the decoder reads and drops unknown fields and stays aligned: NoReject, AllRead"),
+        ("HStream_neg3", "AllRead|NoReject|RefAgreement", "negative: a decoder that forgets the containers opened inside a skipped field falls behind the encoder's ordinals")])
     alt_stage(run, tmp, hx, known, "c05small", "c05s", "vary",
               hcodec_cfg(defmode="vary", predefs=allk if th else "{0, 16, 40}", maxdev=2 if th else 1, wide="FALSE"),
               mc_note="every permutation / subset / one unknown field (9 kinds of unknown value) of the class definitions of the small objects x definition index k x short/long instance form")
@@ -597,8 +634,8 @@ PLANS = {
     "C07": plan_codec("c07", scalar_mc, "integer round trips validated by TLC: exactness and shortest form per wire kind; 2^32-point sweeps (thorough: exhaustive, quick: every 512th value) against TLC-exported region tables", sweeps=("int32", "int64")),
     "C08": plan_codec("c08", scalar_mc, "double round trips validated by TLC against the octet-level IEEE classification; sweep of the float32 bit patterns (thorough: all 2^32, quick: every 512th) against the TLC-exported table", sweeps=("float32",)),
     "C09": plan_codec("c09", None, "string/binary round trips validated by TLC: payload, character counts, chunk boundaries"),
-    "C04": plan_codec("c04", None, "pointer graphs (exhaustive small, random large) encoded and decoded; TLC checks ref ordinals on the wire (Denotes binds node->ordinal) and identity in the decoded graph (canonical numbering equality)"),
-    "C06": plan_codec("c06", None, "multi-value streams through one encoder/decoder and one serializer over a counting reader; TLC threads the stream state (class, type and ref tables) through the whole history: framing offsets, denotation with cross-value refs, order, no carrier"),
+    "C04": plan_c04,
+    "C06": plan_codec("c06", stream_mc, "multi-value streams through one encoder/decoder and one serializer over a counting reader; TLC threads the stream state (class, type and ref tables) through the whole history: framing offsets, denotation with cross-value refs, order, no carrier"),
     "C15": plan_codec("c15", fault_mc, "fault enumeration: for each value and writer-taking entry point every Write index k x 4 fault kinds is executed against the real encoder; each run's writer log is replayed by TLC through HFault (FaultSurfaces)", module="TraceFault", level="fault_enumeration"),
     "C17": plan_pool,
     "C03": plan_c03,
